@@ -459,6 +459,11 @@ impl FileManager {
 
         for index_name in self.list_indexes(schema, table)? {
             let index_path = self.index_file_path(schema, table, &index_name);
+            self.open_files.remove(&FileKey::Index {
+                schema: schema.to_string(),
+                table: table.to_string(),
+                index_name: index_name.clone(),
+            });
             fs::remove_file(&index_path).wrap_err_with(|| {
                 format!("failed to remove index file '{}'", index_path.display())
             })?;
@@ -467,6 +472,10 @@ impl FileManager {
         }
 
         let table_path = self.table_file_path(schema, table);
+        self.open_files.remove(&FileKey::TableData {
+            schema: schema.to_string(),
+            table: table.to_string(),
+        });
         fs::remove_file(&table_path)
             .wrap_err_with(|| format!("failed to remove table file '{}'", table_path.display()))?;
         #[cfg(kahflane_turdb_verif)]
